@@ -256,8 +256,8 @@ impl CryptoResolver for RecResolver {
         if self.lack.as_deref() == Some("kem") {
             return None;
         }
-        // the ring backend has no KEM; the KEM is always the default backend's
-        let inner = self.inner.resolve_kem(choice).or_else(|| DefaultResolver.resolve_kem(choice))?;
+        // whatever the backend under test resolves (a fallback pair must find the default backend's KEM by itself)
+        let inner = self.inner.resolve_kem(choice)?;
         Some(Box::new(RecKem { inner, ep: self.ep.clone(), log: self.log.clone(), gen_ctr: 0, enc_ctr: Mutex::new(0) }))
     }
     fn resolve_rng(&self) -> Option<Box<dyn Random>> {
